@@ -212,6 +212,15 @@ def rule_res5(prog):
             n += 1
             guard = [c for (c, pol) in p.pc if not pol and
                      isinstance(c, App) and c.op == 'in' and c.args[0] == v]
+            # a name returned from inside a search loop: the conditions of
+            # the returning iteration are kept in a note of the path
+            for nt in p.notes:
+                if nt and nt[0] == 'exit-conds':
+                    for (c, pol) in nt[1]:
+                        c = I.snapshot(c, p) if not isinstance(c, App) else c
+                        if not pol and isinstance(c, App) and \
+                                c.op == 'in' and c.args[0] == v:
+                            guard.append(c)
             good = [c for c in guard if _is_labels_of(c.args[1], K)]
             r.inst(function=f.short(), returns=repr(v)[:80],
                    guards=[repr(c)[:120] for c in guard])
